@@ -6,6 +6,7 @@ package main
 import (
 	"fmt"
 	"math/rand"
+	"sort"
 	"strings"
 )
 
@@ -132,6 +133,17 @@ func genSession(r *rand.Rand, i int) J {
 	}
 	modAt := len(templates)
 	templates = append(templates, modTpl("tablerow", "cols"), modTpl("for", "lim"), modTpl("for", "off"))
+	// records in an order no filter would leave them in, through every array filter with and without a key: the
+	// caller's list stays as it was
+	for j := range envs {
+		if e := envs[j].([]any); len(e) > 0 {
+			envs[j] = append(e, []any{bs("ppl"), vArr(vMap("name", vStr("bob")), vMap("name", vStr("Al")), vMap("name", vStr("cy")), vMap("name", vStr("abe")))})
+		}
+	}
+	names := func(e J) []any { return []any{nObj(eFilter(eFilter(e, "map", eLit(vStr("name"))), "join", eLit(vStr(","))))} }
+	templates = append(templates, names(eVar("ppl")),
+		names(eFilter(eVar("ppl"), pick(r, []string{"sort_natural", "sort"}), eLit(vStr("name")))),
+		names(eFilter(eVar("ppl"), pick(r, []string{"reverse", "uniq", "compact", "sort_natural", "sort"}))))
 	// a filter that does not exist, its name the beginning of several that do: the same error every time
 	templates = append(templates, []any{nText("a"), nObj(eFilter(eVar("s"), pick(r, []string{"s", "trunc", "url_", "strip_", "re", "sort_", "up", "r", "escape_"})))})
 	ill := illFormedTemplates()
@@ -231,6 +243,24 @@ func genMapSession(r *rand.Rand, i int) J {
 	c := J{"kind": "session", "templates": templates, "envs": []any{env}, "ops": ops}
 	if n <= 3 {
 		c["anyorder"] = n
+	}
+	if i%7 == 6 {
+		// keys that spell numbers, some in several ways, some only at their beginning: the order of the loop is the same
+		// every time, however the map was built
+		ks := []string{"9", "10", "1st", "7", "07", "100", "2nd", "a", "-1", "1e1", "010", " 9"}
+		pairsN := []any{}
+		for k := 0; k < n && k < len(ks); k++ {
+			pairsN = append(pairsN, []any{bs(ks[k]), vInt(k)})
+		}
+		sort.Slice(pairsN, func(a, b int) bool { return bytesOf(pairsN[a].([]any)[0]) < bytesOf(pairsN[b].([]any)[0]) })
+		c["envs"] = []any{[]any{[]any{bs("m"), J{"k": "map", "v": pairsN}}, []any{bs("s"), vStr("v")}}}
+		for _, ox := range ops {
+			ox.(J)["shuffle"] = true
+		}
+		if len(pairsN) > 3 {
+			delete(c, "anyorder")
+		}
+		return c
 	}
 	if i%6 == 2 {
 		// a map whose keys are held indirectly (pointers to strings, Drops on a pointer type): turned into text, looped
